@@ -611,6 +611,10 @@ pub fn corner_of(kt: crate::refimpl::decode::KT, scheme: Scheme, pairs: &Pairs) 
     None
 }
 
+fn opn_of(op: &Op) -> &'static str {
+    op.name()
+}
+
 pub fn short_err(r: &Result<Obs, String>) -> String {
     match r {
         Ok(_) => "ok".into(),
@@ -748,8 +752,38 @@ fn run_history_inner<KK: KeyKind>(ctx: &mut Ctx, h: &History, opts: &RunOpts) ->
         stats.states.push(cur.clone());
     }
 
+    // an auxiliary record of ANOTHER key type, updated and read between the steps of every third history: state
+    // that a call leaves behind on the thread must not damage an unrelated record (nor the other way round)
+    let aux_key = k256::ecdsa::SigningKey::from_slice(&secret_from(Scheme::Secp, 0xa0a0)).expect("aux key");
+    let mut aux: Option<Enr<k256::ecdsa::SigningKey>> = if !cfg!(miri) && (h.own + h.steps.len() as u64) % 3 == 0 {
+        guard(|| Enr::<k256::ecdsa::SigningKey>::builder().udp4(1).build(&aux_key).ok()).ok().flatten()
+    } else {
+        None
+    };
     // ------------------------------------------------------------------ steps
     for (i, step) in h.steps.iter().enumerate() {
+        if let Some(a) = aux.as_mut() {
+            let r = guard(|| {
+                let ok = a.set_udp4(i as u16 + 2, &aux_key).is_ok();
+                let enc = alloy_rlp::encode(&*a);
+                let back = <Enr<k256::ecdsa::SigningKey> as alloy_rlp::Decodable>::decode(&mut &enc[..]).is_ok();
+                (ok, a.verify(), back, a.udp4())
+            });
+            ctx.count("aux-record-steps");
+            match r {
+                Ok((true, true, true, Some(p))) if p == i as u16 + 2 => {}
+                Ok(other) => {
+                    ctx.violate("C05", "auxiliary-record-broken-by-interleaved-history", opn_of(&step.op), || {
+                        format!("{ktn}: a k256 record updated between the steps of this history: (ok, verify, re-decodes, udp4) = {other:?} before step {i}")
+                    }, &replay);
+                    aux = None;
+                }
+                Err(p) => {
+                    ctx.violate("C03", "panic", &format!("aux/{}", panic_sig(&p)), || p.clone(), &replay);
+                    aux = None;
+                }
+            }
+        }
         if cfg!(miri) && ctx.expired() {
             ctx.count("deadline-skips");
             break;
